@@ -265,6 +265,17 @@ pub fn compute<'data, P: Platform, A: Arch<Platform = P>>(
         unreachable!();
     };
     let header_info = internal.header_info.as_ref().unwrap();
+    #[cfg(feature = "verif")]
+    crate::verif_api::layoutdump::dump_parts::<A::Platform>(
+        &section_part_sizes,
+        &section_part_layouts,
+        &section_layouts,
+        &output_sections,
+        &output_order,
+        &program_segments,
+        header_info,
+        symbol_db.args,
+    );
     let segment_layouts = compute_segment_layout::<A::Platform>(
         &section_layouts,
         &output_sections,
@@ -273,6 +284,8 @@ pub fn compute<'data, P: Platform, A: Arch<Platform = P>>(
         header_info,
         symbol_db.args,
     )?;
+    #[cfg(feature = "verif")]
+    crate::verif_api::layoutdump::dump_segments(&segment_layouts);
 
     let mem_offsets: OutputSectionPartMap<u64> = starting_memory_offsets(&section_part_layouts);
     let starting_mem_offsets_by_group = compute_start_offsets_by_group(&group_states, mem_offsets);
@@ -812,6 +825,9 @@ trait SymbolRequestHandler<'data, P: Platform>: std::fmt::Display + HandlerData 
                 symbol_db.args,
             );
 
+            #[cfg(feature = "verif")]
+            crate::verif_api::alloc::note_resolution(flags.bits(), symbol_db.output_kind);
+
             if symbol_db.args.common().verify_allocation_consistency {
                 verify_consistent_allocation_handling::<P>(
                     flags,
@@ -890,6 +906,14 @@ impl<'data, P: Platform> SymbolRequestHandler<'data, P> for ObjectLayoutState<'d
             .object
             .symbol_section(local_symbol, object_symbol_index)?
         {
+            #[cfg(feature = "verif")]
+            crate::verif_api::trace::lpush(
+                queue.index,
+                verif_item(&WorkItem::LoadSection(SectionLoadRequest::new(
+                    self.file_id,
+                    section_id,
+                ))),
+            );
             queue
                 .local_work
                 .push(WorkItem::LoadSection(SectionLoadRequest::new(
@@ -1317,6 +1341,33 @@ impl WorkItem {
             WorkItem::LoadSection(s) => s.file_id,
             WorkItem::ExportDynamic(symbol_id) => symbol_db.file_id_for_symbol(symbol_id),
         }
+    }
+}
+
+#[cfg(feature = "verif")]
+fn verif_item(work: &WorkItem) -> crate::verif_api::trace::Item {
+    use crate::verif_api::trace::Item;
+    match *work {
+        WorkItem::LoadGlobalSymbol(s) => Item {
+            kind: 'y',
+            a: s.as_usize() as u64,
+            b: 0,
+        },
+        WorkItem::CopyRelocateSymbol(s) => Item {
+            kind: 'c',
+            a: s.as_usize() as u64,
+            b: 0,
+        },
+        WorkItem::LoadSection(r) => Item {
+            kind: 's',
+            a: u64::from(r.file_id.as_u32()),
+            b: u64::from(r.section_index),
+        },
+        WorkItem::ExportDynamic(s) => Item {
+            kind: 'e',
+            a: s.as_usize() as u64,
+            b: 0,
+        },
     }
 }
 
@@ -1981,6 +2032,12 @@ impl<'data, P: Platform> GroupActivationInputs<'data, P> {
             common: CommonGroupState::new(resources.output_sections),
         };
 
+        #[cfg(feature = "verif")]
+        {
+            crate::verif_api::trace::perturb(5);
+            crate::verif_api::trace::activate(group_index);
+        }
+
         let mut should_delay_processing = false;
 
         for file in &mut group.files {
@@ -1999,17 +2056,29 @@ impl<'data, P: Platform> GroupActivationInputs<'data, P> {
 
         if should_delay_processing {
             resources.delay_processing.push(group).unwrap();
+            #[cfg(feature = "verif")]
+            crate::verif_api::trace::delay(group_index);
         } else {
             group.do_pending_work::<A>(resources, scope);
         }
+
+        #[cfg(feature = "verif")]
+        crate::verif_api::trace::perturb(6);
+        #[cfg(feature = "verif")]
+        let verif_section = crate::verif_api::trace::atomic_section();
 
         let remaining = resources
             .activations_remaining
             .fetch_sub(1, atomic::Ordering::Relaxed)
             - 1;
 
+        #[cfg(feature = "verif")]
+        verif_section.finish(remaining);
+
         if remaining == 0 {
             while let Some(group) = resources.delay_processing.pop() {
+                #[cfg(feature = "verif")]
+                crate::verif_api::trace::resume(group.queue.index);
                 group.do_pending_work::<A>(resources, scope);
             }
         }
@@ -2054,17 +2123,32 @@ fn find_required_sections<'data, A: Arch>(
     };
     let resources_ref = &resources;
 
+    #[cfg(feature = "verif")]
+    crate::verif_api::trace::init(num_groups);
+
     rayon::in_place_scope(|scope| {
         queue_initial_group_processing::<A>(groups_in, symbol_db, resources_ref, scope);
     });
 
     let mut errors: Vec<Error> = take(resources.errors.lock().unwrap().as_mut());
     // TODO: Figure out good way to report more than one error.
-    if let Some(error) = errors.pop() {
+    #[cfg(feature = "verif")]
+    {
+        if !errors.is_empty() {
+            crate::verif_api::trace::end(errors.len(), 0);
+        }
+    }
+    // Errors were pushed in whatever order the worker threads happened to run. Sort them so that the
+    // error we report doesn't depend on thread scheduling.
+    errors.sort_by_cached_key(Error::to_string);
+    if let Some(error) = errors.into_iter().next() {
         return Err(error);
     }
 
     let mut group_states = unwrap_worker_states(&resources.worker_slots);
+
+    #[cfg(feature = "verif")]
+    crate::verif_api::trace::end(0, group_states.len());
 
     <A::Platform as Platform>::finalise_find_required_sections(&mut group_states, symbol_db)?;
 
@@ -2136,8 +2220,15 @@ impl<'data, P: Platform> GroupState<'data, P> {
         resources: &'scope GraphResources<'data, '_, P>,
         scope: &Scope<'scope>,
     ) {
+        #[cfg(feature = "verif")]
+        crate::verif_api::trace::enter(self.queue.index);
         loop {
             while let Some(work_item) = self.queue.local_work.pop() {
+                #[cfg(feature = "verif")]
+                {
+                    crate::verif_api::trace::pop(self.queue.index, verif_item(&work_item));
+                    crate::verif_api::trace::perturb(3);
+                }
                 let file_id = work_item.file_id(resources.symbol_db);
                 let file = &mut self.files[file_id.file()];
                 if let Err(error) = file.do_work::<A>(
@@ -2147,16 +2238,24 @@ impl<'data, P: Platform> GroupState<'data, P> {
                     &mut self.queue,
                     scope,
                 ) {
+                    #[cfg(feature = "verif")]
+                    crate::verif_api::trace::error(self.queue.index);
                     resources.report_error(error);
                     return;
                 }
             }
+            #[cfg(feature = "verif")]
+            crate::verif_api::trace::perturb(2);
             {
                 let mut slot = resources.worker_slots[self.queue.index].lock().unwrap();
                 if slot.work.is_empty() {
+                    #[cfg(feature = "verif")]
+                    crate::verif_api::trace::park(self.queue.index);
                     slot.worker = Some(self);
                     return;
                 }
+                #[cfg(feature = "verif")]
+                crate::verif_api::trace::swap(self.queue.index, slot.work.len());
                 swap(&mut slot.work, &mut self.queue.local_work);
             };
         }
@@ -2260,6 +2359,8 @@ impl LocalWorkQueue {
         scope: &Scope<'scope>,
     ) {
         if file_id.group() == self.index {
+            #[cfg(feature = "verif")]
+            crate::verif_api::trace::lpush(self.index, verif_item(&work));
             self.local_work.push(work);
         } else {
             resources.send_work::<A>(file_id, work, resources, scope);
@@ -2322,15 +2423,23 @@ impl<'data, P: Platform> GraphResources<'data, '_, P> {
         resources: &'scope GraphResources<'data, '_, P>,
         scope: &Scope<'scope>,
     ) {
+        #[cfg(feature = "verif")]
+        crate::verif_api::trace::perturb(0);
         let worker;
         {
             let mut slot = self.worker_slots[file_id.group()].lock().unwrap();
             worker = slot.worker.take();
             slot.work.push(work);
+            #[cfg(feature = "verif")]
+            crate::verif_api::trace::send(file_id.group(), verif_item(&work), worker.is_some());
         };
+        #[cfg(feature = "verif")]
+        crate::verif_api::trace::perturb(1);
         if let Some(worker) = worker {
             scope.spawn(|scope| {
                 verbose_timing_phase!("Work with object");
+                #[cfg(feature = "verif")]
+                crate::verif_api::trace::perturb(7);
                 worker.do_pending_work::<A>(resources, scope);
             });
         }
@@ -3647,6 +3756,14 @@ impl<'data, P: Platform> ObjectLayoutState<'data, P> {
                 SectionSlot::MustLoad(..)
                 | SectionSlot::UnloadedDebugInfo
                 | SectionSlot::MergeStrings(_) => {
+                    #[cfg(feature = "verif")]
+                    crate::verif_api::trace::lpush(
+                        queue.index,
+                        verif_item(&WorkItem::LoadSection(SectionLoadRequest::new(
+                            self.file_id,
+                            object::SectionIndex(i),
+                        ))),
+                    );
                     queue
                         .local_work
                         .push(WorkItem::LoadSection(SectionLoadRequest::new(
@@ -3656,6 +3773,14 @@ impl<'data, P: Platform> ObjectLayoutState<'data, P> {
                 }
                 SectionSlot::Unloaded(sec) => {
                     if no_gc {
+                        #[cfg(feature = "verif")]
+                        crate::verif_api::trace::lpush(
+                            queue.index,
+                            verif_item(&WorkItem::LoadSection(SectionLoadRequest::new(
+                                self.file_id,
+                                object::SectionIndex(i),
+                            ))),
+                        );
                         queue
                             .local_work
                             .push(WorkItem::LoadSection(SectionLoadRequest::new(
@@ -4254,6 +4379,20 @@ fn can_export_symbol<'data, P: Platform>(
     let flags = resources.local_flags_for_symbol(symbol_id);
 
     if flags.is_downgraded_to_local() {
+        return false;
+    }
+
+    // Symbols defined by members of archives named by `--exclude-libs` are never exported, no matter
+    // which option (`--export-dynamic`, an export list, a reference from a shared object) asks for it.
+    if let crate::grouping::SequencedInput::Object(obj) = resources
+        .symbol_db
+        .file(resources.symbol_db.file_id_for_symbol(symbol_id))
+        && obj.parsed.input.has_archive_semantics()
+        && !resources
+            .symbol_db
+            .args
+            .should_export_dynamic(obj.parsed.input.lib_name())
+    {
         return false;
     }
 
